@@ -16,12 +16,48 @@ struct Run {
     error: Option<String>,
 }
 
+/// number of alternatives explored at a choice point with n entries: all n! orders up to n = 7, beyond that a
+/// fixed family of n*(n-1)/2 + n + 1 permutations (identity, every transposition, every rotation, reversal)
+const FULL_UP_TO: usize = 7;
+
 fn fact(n: usize) -> u64 {
-    (1..=n as u64).product()
+    if n <= FULL_UP_TO {
+        (1..=n as u64).product()
+    } else {
+        (n * (n - 1) / 2 + n + 1) as u64
+    }
 }
 
 /// k-th permutation of 0..n in lexicographic order
 fn kth_perm(n: usize, mut k: u64) -> Vec<usize> {
+    if n > FULL_UP_TO {
+        let mut p: Vec<usize> = (0..n).collect();
+        if k == 0 {
+            return p;
+        }
+        k -= 1;
+        let pairs = (n * (n - 1) / 2) as u64;
+        if k < pairs {
+            // k-th transposition (i < j)
+            let mut c = 0u64;
+            for i in 0..n {
+                for j in i + 1..n {
+                    if c == k {
+                        p.swap(i, j);
+                        return p;
+                    }
+                    c += 1;
+                }
+            }
+        }
+        k -= pairs;
+        if (k as usize) < n - 1 {
+            p.rotate_left(k as usize + 1);
+            return p;
+        }
+        p.reverse();
+        return p;
+    }
     let mut items: Vec<usize> = (0..n).collect();
     let mut out = Vec::with_capacity(n);
     for i in (0..n).rev() {
@@ -93,8 +129,9 @@ pub fn main(args: &[String]) {
             errors.push("the same schedule gave two different observations (uncontrolled nondeterminism)".into());
         }
         let mut stack: Vec<Vec<u64>> = vec![vec![]];
+        let t0 = std::time::Instant::now();
         while let Some(prefix) = stack.pop() {
-            if executions >= cap {
+            if executions >= cap || (executions > 2000 && t0.elapsed().as_secs() >= 20) {
                 capped = true;
                 break;
             }
@@ -112,6 +149,9 @@ pub fn main(args: &[String]) {
             outcomes.entry(text).or_insert_with(|| points.iter().map(|p| p.1).collect());
             for i in prefix.len()..points.len() {
                 let n = points[i].0;
+                if n > FULL_UP_TO {
+                    capped = true; // not all n! orders of this map are enumerated
+                }
                 let alts = fact(n);
                 max_alts = max_alts.max(alts);
                 for alt in 1..alts {
